@@ -28,7 +28,7 @@ from ..explorer import Step
 PROPERTY = "C04"
 ALPHABET = ("peer DATA fcl in {1, A, A+1} x pad {None, 3}; increment_flow_control_window {1, 7, to 2^31-1, past} on stream/connection; "
             "acknowledge_received_data {0, outstanding, outstanding+5, -1} and on never-used ids; update_settings IWS in {0,1,5,65535,70000}; "
-            "peer SETTINGS ACK at any point; reset_stream; open next stream")
+            "peer SETTINGS ACK at any point; reset_stream; open next stream; client: PUSH_PROMISE (reserved stream with windows), response HEADERS on it")
 BOUNDS = {"quick": "depth 6, <=2 streams, both roles", "thorough": "depth 8 (or time budget, reported), <=2 streams"}
 MAXW = 2 ** 31 - 1
 sb = H.stateless_block
@@ -64,12 +64,15 @@ class Spec:
         st.reset = set()        # streams the application reset
         st.gone = {}            # their last advertised stream window (the library may still adjust it)
         st.nstreams = 0
+        st.resv = set()         # client role: promised streams whose response HEADERS have not arrived (windows exist, no DATA yet)
+        st.npush = 0
         st.dead = False
         return [("start", st)]
 
     def fingerprint(self, st):
         return fingerprint(st.h.conn, st.Ac, st.acked, tuple(st.pending), tuple(sorted(st.As.items())),
-                           tuple(sorted(st.unacked.items())), tuple(sorted(st.reset)), tuple(sorted(st.gone.items())), st.nstreams, st.dead)
+                           tuple(sorted(st.unacked.items())), tuple(sorted(st.reset)), tuple(sorted(st.gone.items())), st.nstreams, st.dead,
+                           tuple(sorted(st.resv)), st.npush)
 
     def actions(self, st):
         if st.dead:
@@ -77,7 +80,15 @@ class Spec:
         acts = []
         if st.nstreams < self.max_streams:
             acts.append("open")
+        if self.client and st.npush < 1 and any(s % 2 for s in st.As):
+            acts.append("rxpush:%d" % min(s for s in st.As if s % 2))
+        for sid in sorted(st.resv):
+            acts.append("rxresp:%d" % sid)
         for sid in sorted(st.As):
+            if sid in st.resv:
+                for inc in ("1", "max", "over"):
+                    acts.append("incr:%d:%s" % (sid, inc))
+                continue
             for L in ("1", "A", "A+1"):
                 for p in ("n", "3"):
                     acts.append("data:%d:%s:%s" % (sid, L, p))
@@ -151,6 +162,26 @@ class Spec:
                 return Step("open-failed", viols, prune=True)
             st.As[sid] = st.acked
             st.unacked[sid] = 0
+        elif parts[0] == "rxpush":
+            parent = int(parts[1])
+            st.npush += 1
+            promised = 2 * st.npush
+            o = h.rx([wire.push_promise(parent, promised, sb(H.REQ))], ("push", parent, promised))
+            if o.kind != "ok" or o.frames:
+                bad("open-failed", "PUSH_PROMISE(%d -> %d) -> %s" % (parent, promised, o.brief()))
+                st.dead = True
+                return Step("open-failed", viols, prune=True)
+            st.As[promised] = st.acked      # a new stream starts with the acknowledged INITIAL_WINDOW_SIZE
+            st.unacked[promised] = 0
+            st.resv.add(promised)
+        elif parts[0] == "rxresp":
+            sid = int(parts[1])
+            o = h.rx([wire.headers(sid, sb(H.RESP))], ("headers", sid, False, False))
+            if o.kind != "ok" or o.frames:
+                bad("open-failed", "response HEADERS on promised stream %d -> %s" % (sid, o.brief()))
+                st.dead = True
+                return Step("open-failed", viols, prune=True)
+            st.resv.discard(sid)
         elif parts[0] in ("data", "rdata"):
             sid = int(parts[1])
             on_reset = parts[0] == "rdata"
@@ -250,6 +281,7 @@ class Spec:
             st.gone[sid] = st.As.pop(sid)
             st.unacked.pop(sid, None)
             st.reset.add(sid)
+            st.resv.discard(sid)
         elif parts[0] == "iws":
             v = int(parts[1])
             o = h.api("update_settings", {wire.S_INITIAL_WINDOW_SIZE: v})
